@@ -46,17 +46,35 @@ ASSUMPTIONS = ["the samplers take all randomness from numpy.random.<fn> looked u
 REQUIRED_COUNTERS = {
     "quick": {"proposal_maps_identified": 2500, "documented_proposal_checked": 1200, "threshold_accept_side": 4400,
               "threshold_reject_side": 2000, "reject_state_unchanged_checked": 1700, "accept_cache_checked": 3500,
-              "nan_inf_never_accepted_checked": 500, "reverse_direction_checked": 1600, "reload_equivalence_checked": 240,
-              "chain_transitions_checked": 10000, "stationarity_tests": 12},
+              "nan_inf_never_accepted_checked": 400, "reverse_direction_checked": 1600, "reload_equivalence_checked": 240,
+              "chain_transitions_checked": 10000, "stationarity_tests": 12,
+              "target_args_unchanged_checked": 50000, "forward_input_checked": 5000, "library_target_vs_reference_checked": 400},
     "thorough": {"proposal_maps_identified": 18000, "documented_proposal_checked": 8000, "threshold_accept_side": 30000,
                  "threshold_reject_side": 14000, "reject_state_unchanged_checked": 12000, "accept_cache_checked": 25000,
-                 "nan_inf_never_accepted_checked": 3500, "reverse_direction_checked": 11000, "reload_equivalence_checked": 1600,
-                 "chain_transitions_checked": 130000, "stationarity_tests": 40}}
+                 "nan_inf_never_accepted_checked": 2500, "reverse_direction_checked": 11000, "reload_equivalence_checked": 1600,
+                 "chain_transitions_checked": 130000, "stationarity_tests": 40,
+                 "target_args_unchanged_checked": 500000, "forward_input_checked": 40000, "library_target_vs_reference_checked": 3000}}
 BUDGET_S = {"quick": 240.0, "thorough": 2400.0}
 
 LEGACY_NAME = {"MH": "MH", "CWMH": "CWMH", "PCN": "pCN", "MALA": "MALA", "ULA": "ULA"}
-PLAIN_TARGETS = ["gauss", "banana", "funnel", "logistic", "student", "box", "nanhalf", "post_lin", "post_nonlin", "post_user"]
-PCN_TARGETS = ["post_lin", "post_nonlin", "post_user", "post_user_nan", "post_user_neginf", "post_lin"]
+PLAIN_TARGETS = ["gauss", "banana", "funnel", "logistic", "student", "box", "nanhalf", "post_lin", "post_nonlin", "post_user",
+                 # real library targets behind recording pass-throughs (reference = independent numpy re-implementation)
+                 "lib_banana", "post_geom", "lib_gauss", "lib_squiggle", "lib_post_mat", "lib_funnel", "post_geom", "lib_donut", "lib_bivgauss"]
+PCN_TARGETS = ["post_lin", "post_nonlin", "post_user", "post_user_nan", "post_user_neginf", "post_geom", "lib_post_mat", "post_geom"]
+GEOM_KINDS = ["kl", "step", "mapped", "kl_lin"]
+GAUSS_FORMS = ["cov_scalar", "cov_vector", "cov", "prec", "sqrtcov", "sqrtprec"]
+
+
+def _geom_attrs(c, rng, k):
+    """attributes of a posterior whose forward model has a non-identity domain geometry; every third one is the
+    configuration (KL expansion on the unit-spaced grid, unnamed prior with only the default geometry) in which
+    proposals (CUQIarrays of the default geometry) and plain-ndarray states take different code paths in Model._2fun."""
+    if k % 3 == 0:
+        c["geom"], c["pname"], c["pgeom"] = "kl", "unnamed", "default"
+    else:
+        c["geom"] = rng.choice(GEOM_KINDS)
+        c["pname"] = rng.choice(["unnamed", "named"])
+        c["pgeom"] = rng.choice(["default", "same"])
 TINY_U = 1e-300
 ONE_U = 1.0 - 2.0 ** -53
 DL = 1e-6                                                # log-margin around the reference threshold
@@ -65,7 +83,7 @@ TS = min(1.0, float(os.environ.get("VERIF_C02_TOLSCALE", "1")))    # development
 # =========================================================================== case generation
 
 def _thr_cases(tier, seed):
-    n_main, n_ula = (300, 50) if tier == "quick" else (2500, 400)
+    n_main, n_ula = (400, 50) if tier == "quick" else (2500, 400)
     out = []
     for name in ("MH", "CWMH", "PCN", "MALA", "ULA"):
         for iface in ("exp", "legacy"):
@@ -76,22 +94,34 @@ def _thr_cases(tier, seed):
                 targets = targets + ["tuple_user", "tuple_udprior_zero", "tuple_udprior_nonzero"]
             hists = ["fresh", "default", "warm", "reload"] if iface == "exp" else ["fresh", "default", "adapted"]
             routes = ["step", "sample"] if iface == "exp" else ["single_update", "sample2"]
+            ngeom = 0
             for i in range(n):
                 tgt = targets[i % len(targets)]
+                if tgt == "post_geom" and name in ("MALA", "ULA"):
+                    tgt = "lib_post_mat"          # Posterior.gradient is not available through KL/step/mapped domain geometries
                 d = rng.choice([1, 2, 3, 5] if tier == "quick" else [1, 2, 3, 4, 6])
                 d = max(d, R.MIN_DIM.get(tgt, 1), 2 if name == "CWMH" else 1)   # CWMH refuses dim 1 (IndexError) in both interfaces
+                if tgt == "post_geom":
+                    d = max(d, 2)
+                if tgt in ("lib_banana", "lib_squiggle", "lib_funnel", "lib_donut", "lib_bivgauss"):
+                    d = 2
                 c = {"kind": "thr", "sampler": name, "iface": iface, "target": tgt, "d": d,
                      "hist": hists[(i // len(targets)) % len(hists)] if i < 4 * len(targets) else rng.choice(hists),
                      "scale": rng.choice(["one", "mid", "mid", "small", "tiny"] + (["vec", "vec"] if name == "CWMH" else [])),
                      "state": rng.choice(["typ", "typ", "tail"]), "route": rng.choice(routes), "i": i}
-                if tgt.startswith("post") or tgt.startswith("tuple"):
+                if tgt.startswith("post") or tgt.startswith("tuple") or tgt == "lib_post_mat":
                     c["pmean"] = ["nonzero", "zero"][(i // len(targets)) % 2]
-                    c["pcov"] = rng.choice(["scalar", "vector", "matrix"] + (["normal"] if name == "PCN" else []))
+                    c["pcov"] = rng.choice(["scalar", "vector", "matrix"] + (["normal"] if (name == "PCN" and tgt != "post_geom") else []))
+                    if tgt == "post_geom":
+                        _geom_attrs(c, rng, ngeom); ngeom += 1
                     if tgt.startswith("tuple_udprior"):
                         c["pmean"] = "nonzero" if tgt.endswith("nonzero") else "zero"
                         c["pcov"] = rng.choice(["scalar", "vector", "matrix"])
                 if tgt in ("box", "nanhalf") and name in ("MALA", "ULA"):
                     c["grad_bad"] = rng.choice(["finite", "nan"])
+                if tgt == "lib_gauss":
+                    forms = GAUSS_FORMS[:-1] if name in ("MALA", "ULA") else GAUSS_FORMS   # sqrtprec form: gradient refused (NotImplementedError)
+                    c["gform"] = forms[(i // len(targets)) % len(forms)]
                 if name == "MH":
                     c["proposal"] = rng.choice(["default", "default", "corr"]) if i % 23 != 22 else "shifted"
                 out.append(c)
@@ -104,24 +134,36 @@ def _chain_cases(tier, seed):
     for name in ("MH", "CWMH", "PCN", "MALA"):
         for iface in ("exp", "legacy"):
             rng = core.rng_for(seed, PROPERTY, "chain", name, iface, tier)
-            targets = ["post_lin", "post_nonlin", "post_user", "post_user_nan"] if name == "PCN" else \
-                      ["gauss", "banana", "logistic", "box", "post_lin", "funnel", "student", "post_user"]
+            targets = ["post_lin", "post_geom", "post_nonlin", "lib_post_mat", "post_user", "post_user_nan"] if name == "PCN" else \
+                      ["gauss", "lib_banana", "banana", "post_geom", "logistic", "lib_gauss", "box", "lib_squiggle", "post_lin", "funnel",
+                       "lib_post_mat", "student", "post_user"]
+            ngeom = 0
             for i in range(n):
                 tgt = targets[i % len(targets)]
+                if tgt == "post_geom" and name == "MALA":
+                    tgt = "lib_bivgauss"
                 d = max(rng.choice([1, 2, 3, 4]), R.MIN_DIM.get(tgt, 1), 2 if name == "CWMH" else 1)
+                if tgt == "post_geom":
+                    d = max(d, 2)
+                if tgt in ("lib_banana", "lib_squiggle", "lib_funnel", "lib_donut", "lib_bivgauss"):
+                    d = 2
                 c = {"kind": "chain", "sampler": name, "iface": iface, "target": tgt, "d": d,
                      "scale": rng.choice(["one", "mid", "small"] + (["vec"] if name == "CWMH" else [])),
                      "mode": rng.choice(["adapt", "adapt", "plain"]), "n": rng.choice([40, 100, 200] + ([600] if tier == "thorough" else [])), "i": i}
-                if tgt.startswith("post"):
+                if tgt.startswith("post") or tgt == "lib_post_mat":
                     c["pmean"] = ["nonzero", "zero"][i % 2]
-                    c["pcov"] = rng.choice(["scalar", "vector", "matrix"] + (["normal"] if name == "PCN" else []))
+                    c["pcov"] = rng.choice(["scalar", "vector", "matrix"] + (["normal"] if (name == "PCN" and tgt != "post_geom") else []))
+                    if tgt == "post_geom":
+                        _geom_attrs(c, rng, ngeom); ngeom += 1
+                if tgt == "lib_gauss":
+                    c["gform"] = rng.choice(GAUSS_FORMS[:-1] if name == "MALA" else GAUSS_FORMS)
                 out.append(c)
     return out
 
 
-STAT_TARGETS = {"MH": ["s_gauss1", "s_logistic1", "s_trunc1", "s_gauss2", "s_prod2", "s_linpost2"],
-                "MALA": ["s_logistic1", "s_gauss1", "s_prod2", "s_gauss2", "s_trunc1", "s_linpost2"],
-                "CWMH": ["s_gauss2", "s_prod2", "s_linpost2"],      # CWMH refuses dim 1
+STAT_TARGETS = {"MH": ["s_gauss1", "s_banana", "s_logistic1", "s_trunc1", "s_gauss2", "s_prod2", "s_linpost2"],
+                "MALA": ["s_logistic1", "s_gauss1", "s_prod2", "s_banana", "s_gauss2", "s_trunc1", "s_linpost2"],
+                "CWMH": ["s_gauss2", "s_banana", "s_prod2", "s_linpost2"],      # CWMH refuses dim 1
                 "PCN": ["s_linpost1", "s_linpost2", "s_linpost2z"]}
 
 
@@ -155,7 +197,8 @@ def cases(tier, seed):
 
 
 def _cfg(case, **extra):
-    keys = ("kind", "sampler", "iface", "target", "hist", "route", "pmean", "pcov", "grad_bad", "proposal", "mode")
+    keys = ("kind", "sampler", "iface", "target", "hist", "route", "pmean", "pcov", "grad_bad", "proposal", "mode",
+            "geom", "pname", "pgeom", "gform")
     c = {k: case[k] for k in keys if k in case}
     c.update(extra)
     return c
@@ -169,9 +212,37 @@ def crash_config(case):
 class Rec:
     def __init__(self):
         self.pts, self.gpts = [], []
+        self.fpts = []          # function values handed to a harness forward map behind a non-identity domain geometry
+        self.changed = []       # (function, argument before, argument after): a library target wrote through its argument
+        self.fwd_bad = []       # (parameter point, function values received, harness par2fun of the point)
+        self.ncalls = 0         # calls observed by the recording pass-throughs
 
     def clear(self):
-        self.pts.clear(); self.gpts.clear()
+        self.pts.clear(); self.gpts.clear(); self.fpts.clear()
+
+
+def _wrap(obj, rec, hook=None):
+    """recording pass-through around the REAL library density `obj` (instance attributes shadow the methods):
+    records a copy of every argument, checks afterwards that the argument was left unchanged."""
+    for nm, store in (("logd", rec.pts), ("gradient", rec.gpts)):
+        orig = getattr(obj, nm, None)
+        if orig is None:
+            continue
+        def w(x, *a, _orig=orig, _store=store, _nm=nm, **k):
+            pre = np.array(x, dtype=float, copy=True)
+            _store.append(pre.ravel().copy())
+            rec.ncalls += 1
+            out = _orig(x, *a, **k)
+            try:
+                same = np.array_equal(np.asarray(x, dtype=float), pre, equal_nan=True)
+            except (TypeError, ValueError):
+                same = True
+            if not same:
+                rec.changed.append((_nm, pre.ravel(), np.array(x, dtype=float).ravel()))
+            if hook is not None and _nm == "logd":
+                hook(pre.ravel())
+            return out
+        setattr(obj, nm, w)
 
 
 def _arr(x):
@@ -195,11 +266,18 @@ class Env:
         elif tgt in R.TARGETS:
             kw = {"grad_bad": case.get("grad_bad", "finite")} if tgt in ("box", "nanhalf") else {}
             self.ref = R.TARGETS[tgt](rs, d, **kw)
+        elif tgt == "lib_gauss":
+            self.ref = R.LibGauss(rs, d, case.get("gform", "cov"))
+        elif tgt.startswith("lib_") and tgt != "lib_post_mat":
+            self.ref = R.GalleryRef(tgt[4:])
+            d = 2
         else:
             pcov = case.get("pcov", "scalar")
             prior = R.GaussPrior(rs, d, case.get("pmean", "zero"), "vector" if pcov == "normal" else pcov)
-            if tgt == "post_lin":
+            if tgt in ("post_lin", "lib_post_mat"):
                 lik = R.LinLik(rs, d, prior)
+            elif tgt == "post_geom":
+                lik = R.GeomLik(rs, d, prior, case.get("geom", "kl"))
             elif tgt == "post_nonlin":
                 lik = R.NonlinLik(rs, d, prior)
             else:
@@ -208,16 +286,46 @@ class Env:
             self.ref = R.PostRef(prior, lik)
         self.d = d
         ref = self.ref
+        self.wrapped = False
         if isinstance(ref, R.PostRef):
             self.is_post = True
             self.prior = prior = ref.prior
             lik = ref.lik
             pcov = case.get("pcov", "matrix" if d > 1 else "scalar")
+            geom = None
+            if lik.kind == "geom":
+                G = cuqi.geometry
+                if lik.gkind in ("kl", "kl_lin"):
+                    geom = G.KLExpansion(d if lik.gkind == "kl" else lik.grid.copy(), decay_rate=lik.decay, normalizer=lik.tau)
+                elif lik.gkind == "step":
+                    geom = G.StepExpansion(lik.grid.copy(), n_steps=d)
+                else:
+                    geom = G.MappedGeometry(G.Continuous1D(d), map=lik.map_fn)
+            pkw = {}
+            if case.get("pname", "named") == "named":
+                pkw["name"] = "x"
+            if geom is not None and case.get("pgeom") == "same":
+                pkw["geometry"] = geom
             if pcov == "normal":
-                self.cprior = cuqi.distribution.Normal(prior.m.copy(), np.sqrt(np.diag(prior.C)), name="x")
+                self.cprior = cuqi.distribution.Normal(prior.m.copy(), np.sqrt(np.diag(prior.C)), **pkw)
             else:
-                self.cprior = cuqi.distribution.Gaussian(prior.m.copy(), copy.deepcopy(prior.cov_arg), name="x")
-            if lik.kind in ("lin", "nonlin"):
+                self.cprior = cuqi.distribution.Gaussian(prior.m.copy(), copy.deepcopy(prior.cov_arg), **pkw)
+            if lik.kind == "geom":
+                # the harness forward map receives FUNCTION values; the parameter points are observed by the
+                # pass-through around the library density, and the two are tied by the harness's own par2fun
+                self.wrapped = True
+                def fwd(x):
+                    ff = _arr(x); rec.fpts.append(ff)
+                    return lik.fwd_fun(ff)
+                model = cuqi.model.Model(fwd, range_geometry=lik.m_out, domain_geometry=geom)
+                ydist = cuqi.distribution.Gaussian(model, lik.s2, name="y")
+                self.clik = ydist.to_likelihood(lik.y.copy())
+            elif tgt == "lib_post_mat":
+                self.wrapped = True
+                model = cuqi.model.LinearModel(lik.A.copy())
+                ydist = cuqi.distribution.Gaussian(model, lik.s2, name="y")
+                self.clik = ydist.to_likelihood(lik.y.copy())
+            elif lik.kind in ("lin", "nonlin"):
                 def fwd(x):
                     xx = _arr(x); rec.pts.append(xx)
                     return lik.fwd(xx)
@@ -252,6 +360,24 @@ class Env:
                     self.ctarget = (self.clik, self.cprior)
             else:
                 self.ctarget = cuqi.distribution.Posterior(self.clik, self.cprior)
+            if self.wrapped:
+                hook = None
+                if lik.kind == "geom":
+                    def hook(xpar):
+                        if rec.fpts:
+                            f_got, f_ref = rec.fpts[-1], lik.p2f(xpar)
+                            if f_got.shape != f_ref.shape or not np.all(np.abs(f_got - f_ref) <= 1e-9 * (1 + np.max(np.abs(f_ref)))):
+                                rec.fwd_bad.append((xpar.copy(), f_got.copy(), f_ref.copy()))
+                _wrap(self.clik if name == "PCN" else self.ctarget, rec, hook)
+        elif getattr(ref, "lib", None) is not None:
+            self.wrapped = True
+            kind, arg = ref.lib
+            if kind == "gallery":
+                self.ctarget = cuqi.distribution.DistributionGallery(arg, name="x")
+            else:
+                key = {"cov_scalar": "cov", "cov_vector": "cov"}.get(arg, arg)
+                self.ctarget = cuqi.distribution.Gaussian(ref.mu.copy(), **{key: copy.deepcopy(ref.arg)}, name="x")
+            _wrap(self.ctarget, rec)
         else:
             def lpf(x):
                 xx = _arr(x); rec.pts.append(xx)
@@ -268,6 +394,47 @@ class Env:
     # value the sampler caches for a point (likelihood-only for pCN)
     def ref_cached(self, name, x):
         return self.ref.ll(x) if name == "PCN" else self.ref.lp(x)
+
+    def sanity(self, ctx, rs, name):
+        """real library targets: the library density (evaluated by the harness on ndarray copies) must agree with the
+        independent reference up to a constant; a disagreement is a density/geometry matter (C04/C13), the case is
+        then inconclusive for C02."""
+        if not self.wrapped:
+            return True
+        f = self.clik.logd if name == "PCN" else self.ctarget.logd
+        pts = [self.ref.typical(rs) for _ in range(3)]
+        vals = [float(np.asarray(f(p.copy()), float).ravel()[0]) for p in pts]
+        refs = [self.ref_cached(name, p) for p in pts]
+        ok = all(abs((vals[i] - vals[0]) - (refs[i] - refs[0])) <= 1e-8 * (1 + abs(refs[i]) + abs(refs[0])) for i in (1, 2))
+        bad_fwd = bool(self.rec.fwd_bad)
+        self.rec.fwd_bad.clear()
+        self.rec.clear()
+        ctx.count("library_target_vs_reference_checked")
+        if not ok or bad_fwd:
+            ctx.inconclusive(f"library target disagrees with the independent reference on plain ndarray input "
+                             f"(density diff {[v - vals[0] for v in vals]} vs {[r - refs[0] for r in refs]}, par2fun mismatch {bad_fwd})")
+            return False
+        return True
+
+    def report_side_effects(self, ctx, cfg, where=""):
+        """violations observed by the pass-throughs since the last call."""
+        rec = self.rec
+        if rec.ncalls:
+            ctx.count("target_args_unchanged_checked", rec.ncalls)
+            if self.ref.__class__.__name__ == "PostRef" and getattr(self.ref.lik, "kind", "") == "geom":
+                ctx.count("forward_input_checked", rec.ncalls)
+            rec.ncalls = 0
+        if rec.changed:
+            nm, pre, post = rec.changed[0]
+            ctx.violation("target_argument_modified", {**cfg, "fn": nm},
+                          f"{where}: {nm} of the target overwrote the array it was given: {pre} -> {post} ({len(rec.changed)} calls)")
+            rec.changed.clear()
+        if rec.fwd_bad:
+            xp, fg, fr = rec.fwd_bad[0]
+            ctx.violation("forward_input_not_par2fun", cfg,
+                          f"{where}: the target was evaluated at parameters {xp} but the forward map received {fg}; "
+                          f"documented par2fun gives {fr} ({len(rec.fwd_bad)} evaluations)")
+            rec.fwd_bad.clear()
 
     def scale_value(self, rs, name, kind):
         d = self.d
@@ -319,17 +486,19 @@ class Driver:
         self.n_unif = self.d if self.name == "CWMH" else (0 if self.name == "ULA" else 1)
 
     # ---- construction
-    def make(self, x0, scale, callback=None):
+    def make(self, x0, scale, callback=None, raw_x0=False):
         cuqi, env = self.cuqi, self.env
         sc = copy.deepcopy(scale)
+        if raw_x0:
+            keep = x0
         if self.iface == "exp":
             cls = getattr(cuqi.experimental.mcmc, self.name)
-            kw = {"scale": sc, "initial_point": None if x0 is None else np.array(x0, float), "callback": callback}
+            kw = {"scale": sc, "initial_point": None if x0 is None else (keep if raw_x0 else np.array(x0, float)), "callback": callback}
             if self.name == "MH" and env.prop_cov is not None:
                 kw["proposal"] = cuqi.distribution.Gaussian(env.prop_mean.copy(), env.prop_cov.copy(), name="xi")
             return cls(env.ctarget, **kw)
         cls = getattr(cuqi.sampler, LEGACY_NAME[self.name])
-        kw = {"scale": sc, "x0": None if x0 is None else np.array(x0, float), "callback": callback}
+        kw = {"scale": sc, "x0": None if x0 is None else (keep if raw_x0 else np.array(x0, float)), "callback": callback}
         if self.name == "MH" and env.prop_cov is not None:
             kw["proposal"] = cuqi.distribution.Gaussian(env.prop_mean.copy(), env.prop_cov.copy(), name="xi")
         return cls(env.ctarget, **kw)
@@ -394,13 +563,19 @@ class Driver:
                 ev = self.lib_eval(s, x)
                 args = [ev["lik"]] if name == "PCN" else ([ev["logd"], ev["grad"]] if name in ("MALA", "ULA") else [ev["logd"]])
                 args_copy = copy.deepcopy(args)
+                x_in = x.copy()
                 env.rec.clear()
                 with Scripted(normal=_zprov(z), uniform=_uprov(us)) as scr:
                     try:
-                        out = s.single_update(x.copy(), *args)
+                        out = s.single_update(x_in, *args)
                     except NameError as e:        # legacy ULA: documented refusal of a NaN potential
                         o.refused = e
                         out = None
+                o.args_changed = None
+                if name != "CWMH" and not _same_bits(x_in, x):      # legacy CWMH updates its argument in place (known C14 finding)
+                    o.args_changed = f"state argument {x} -> {x_in}"
+                elif name in ("MALA", "ULA") and not _same_bits(np.asarray(args[1], float).ravel(), np.asarray(args_copy[1], float).ravel()):
+                    o.args_changed = f"gradient argument {args_copy[1]} -> {args[1]}"
                 if out is not None:
                     o.x_next = _arr(out[0])
                     o.acc = np.array(out[-1], float).ravel()
@@ -510,6 +685,8 @@ class Thr:
 
     def build(self):
         case, D, rs, env = self.case, self.D, self.rs, self.env
+        if not env.sanity(self.ctx, rs, self.name):
+            return False
         scale = env.scale_value(rs, self.name, case["scale"])
         if self.name == "PCN" and case["scale"] == "one" and rs.uniform() < 0.5:
             scale = 0.999
@@ -563,7 +740,31 @@ class Thr:
                 x = self.start_point()
             self.s, self.x = s, x
         env.rec.clear()
+        if rs.uniform() < 0.35:
+            self.decoy()
         self.scale = D.scale_of(self.s)
+        env.report_side_effects(self.ctx, self.cfg, "history (" + str(hist) + ")")
+        return True
+
+    def decoy(self):
+        """another sampler of the same class, configured differently and built/run AFTER the one under test, must not
+        change it (class-level shared state, order of construction)."""
+        D, rs, env = self.D, self.rs, self.env
+        before = D.snapshot(self.s) if self.iface == "exp" else {"scale": copy.deepcopy(self.s.scale), "x0": copy.deepcopy(self.s.x0)}
+        other = D.make(self.start_point(), env.scale_value(rs, self.name, "mid") * (0.5 if self.name == "PCN" else 1.0))
+        try:
+            if self.iface == "exp":
+                other.initialize(); other.warmup(10)
+            else:
+                other.sample_adapt(20, 0)
+        except NameError:
+            pass
+        env.rec.clear()
+        after = D.snapshot(self.s) if self.iface == "exp" else {"scale": copy.deepcopy(self.s.scale), "x0": copy.deepcopy(self.s.x0)}
+        self.ctx.count("decoy_isolation_checked")
+        k = _same_state(before, after)
+        if k is not None:
+            self.viol("sampler_instances_share_state", f"building and running a second sampler changed {k} of the first: {before[k]} -> {after[k]}", key=k)
 
     def usable_state(self, x):
         x = np.asarray(x, float)
@@ -578,6 +779,14 @@ class Thr:
             g = self.ref.grad(x)
             if not np.all(np.isfinite(g)) or np.max(np.abs(g)) > 1e4:
                 return False
+            if self.env.wrapped:
+                # real library target: its own gradient must be computable there (e.g. the gallery funnel overflows
+                # to NaN for x1 > ~1400 where a diverged Langevin run may end up)
+                gl = np.asarray(self.env.ctarget.gradient(x.copy()), float).ravel()
+                self.env.rec.clear()
+                if gl.shape != g.shape or not np.all(np.isfinite(gl)) or not np.allclose(gl, g, rtol=1e-6, atol=1e-9):
+                    self.ctx.count("library_gradient_unusable_state")
+                    return False
         return True
 
     def reload_equivalence(self, sA, sB):
@@ -601,6 +810,11 @@ class Thr:
 
     def trans(self, x, z, us, route=None):
         o = self.D.transition(self.s, self.at(x), z, us, route)
+        self.env.report_side_effects(self.ctx, self.cfg, "transition")
+        if hasattr(o, "args_changed"):
+            self.ctx.count("kernel_args_unchanged_checked")
+            if o.args_changed:
+                self.viol("kernel_argument_modified", f"single_update wrote through its {o.args_changed}")
         exp_norm = 1
         if o.refused is None and (o.n_norm != exp_norm or o.n_unif != self.D.n_unif or not o.norm_scripted):
             self.viol("unexpected_random_draws", f"transition consumed {o.n_norm} normal and {o.n_unif} uniform draws, "
@@ -730,9 +944,23 @@ class Thr:
         if not np.all(np.abs(y - y_pred) <= 1e-9 * (1 + np.max(np.abs(y_pred)))):
             self.viol("proposal_not_affine", f"{what}: x*(xi)={y} differs from identified a+B xi={y_pred}"); return
         bad = ref.in_bad(y) or not np.isfinite(self.env.ref_cached(self.name, y))
+        lib_overflow = False
+        if not bad and self.env.wrapped:
+            # a real library density may over/underflow to -inf/NaN at an extreme proposal where the reference is
+            # still finite: what the kernel sees is then a NaN/-inf proposal, which must never be accepted
+            ev = self.D.lib_eval(self.s, y)
+            v = float(np.asarray(ev["lik" if self.name == "PCN" else "logd"], float).ravel()[0])
+            gl = np.asarray(ev.get("grad", 0.0), float)
+            if not np.isfinite(v):
+                bad = lib_overflow = True
+                ctx.count("library_density_overflow_proposals")
+            elif not np.all(np.isfinite(gl)):
+                ctx.count("library_gradient_unusable_state"); return
         if self.name == "ULA":
             # no accept step: any u; NaN never accepted (experimental: rejected; legacy: refused)
             o = self.trans(x, z, [ONE_U], route)
+            if lib_overflow:
+                return
             if ref.has_bad == "nan" and ref.in_bad(y):
                 ctx.count("nan_inf_never_accepted_checked")
                 self.judge(o, x, False, -np.inf, what + " [ULA NaN proposal]")
@@ -833,7 +1061,8 @@ class Thr:
 
     def run(self):
         ctx = self.ctx
-        self.build()
+        if not self.build():
+            return
         x = self.x
         ctx.note("scale", self.scale)
         if self.name == "CWMH":
@@ -975,6 +1204,8 @@ def run_chain(case, ctx):
     D = Driver(env, case, ctx)
     name, iface, d, ref = D.name, D.iface, env.d, env.ref
     cfg = _cfg(case)
+    if not env.sanity(ctx, rs, name):
+        return
     scale0 = env.scale_value(rs, name, case["scale"])
     x0 = ref.typical(rs)
     if name == "PCN" and not np.isfinite(ref.ll(x0)):
@@ -985,7 +1216,11 @@ def run_chain(case, ctx):
         s = holder["s"]
         marks.append((np.array(sample, float).ravel().copy(), len(env.rec.pts), len(holder["scr"].draws),
                       np.array(s.scale, float).copy()))
-    s = D.make(x0, scale0, callback=cb)
+    big = np.full(2 * d + 1, 7.25)
+    big[1::2] = x0
+    x0_view = big[1::2]                 # the caller's initial point is a non-contiguous view of a larger buffer
+    big_before = big.copy()
+    s = D.make(x0_view, scale0, callback=cb, raw_x0=True)
     holder["s"] = s
     np.random.seed(int(rs.randint(2 ** 31 - 1)))
     n = case["n"]
@@ -1002,11 +1237,45 @@ def run_chain(case, ctx):
         else:
             scale_first = np.array(s.scale, float).copy()
             if case["mode"] == "adapt":
-                s.sample_adapt(n, 0)
+                holder["res"] = s.sample_adapt(n, 0)
             else:
-                s.sample(n, 0)
+                holder["res"] = s.sample(n, 0)
     pts, draws = [p.copy() for p in env.rec.pts], list(scr.draws)
     env.rec.clear()
+    env.report_side_effects(ctx, cfg, "recorded run")
+    ctx.count("initial_point_unchanged_checked")
+    if not _same_bits(big, big_before):
+        ctx.violation("kernel_argument_modified", {**cfg, "arg": "initial_point"},
+                      f"the run wrote through the caller's initial point (a view): buffer {big_before} -> {big}")
+    # the values the kernel carries belong to the stored states (reference evaluated on copies)
+    if iface == "exp":
+        key = "current_likelihood_logd" if name == "PCN" else "current_target_logd"
+        carried = float(np.asarray(getattr(s, key), float).ravel()[0])
+        xf = _arr(s.current_point)
+        fresh = float(np.asarray(D.lib_eval(s, xf)["lik" if name == "PCN" else "logd"], float).ravel()[0])
+        ctx.count("chain_carried_density_checked")
+        if np.isfinite(carried) and not _close(carried, fresh, 1e-10, 1e-12):
+            ctx.violation("stale_cache_after_accept", {**cfg, "key": key},
+                          f"after the run the carried {key}={carried} is not the density {fresh} of the stored state {xf}")
+        if s._samples and not _same_bits(_arr(s._samples[-1]), xf):
+            ctx.violation("stale_cache_after_accept", {**cfg, "key": "last_sample"}, "last stored sample is not the current point")
+    elif name != "CWMH":      # legacy CWMH overwrites the stored previous states (known C14 finding)
+        res = holder.get("res")
+        if res is not None and getattr(res, "loglike_eval", None) is not None:
+            ll, xs = np.asarray(res.loglike_eval, float).ravel(), np.asarray(res.samples, float)
+            rv = np.array([env.ref_cached(name, xs[:, i].copy()) for i in range(xs.shape[1])])
+            ok = np.isfinite(rv) & np.isfinite(ll)
+            ctx.count("chain_carried_density_checked", int(ok.sum()))
+            if ok.sum() > 1:
+                i0 = int(np.argmax(ok))
+                gap = np.abs((ll - ll[i0]) - (rv - rv[i0]))
+                tol = 1e-8 * (1 + np.abs(rv) + abs(rv[i0]))
+                badi = np.where(ok & (gap > tol))[0]
+                if badi.size:
+                    i = int(badi[0])
+                    ctx.violation("stale_cache_after_accept", {**cfg, "key": "loglike_eval"},
+                                  f"returned log-density {ll[i]} of sample {i} does not belong to the returned state {xs[:, i]} "
+                                  f"(reference difference to sample {i0}: {rv[i] - rv[i0]}, returned: {ll[i] - ll[i0]}); {badi.size} samples")
     if iface == "legacy":
         # the run starts with an evaluation at x0 (not part of a transition)
         first_pt = 1
@@ -1129,6 +1398,8 @@ def _stat_target(case, rs):
         return R.StatLinPost(rs, 2, mean_kind="zero")
     if t == "s_prod2":
         return R.Stat2DProd(rs)
+    if t == "s_banana":
+        return R.StatBanana(rs)
     raise KeyError(t)
 
 
@@ -1142,11 +1413,11 @@ def _run_chains(D, s, ref, X0, k, name, iface):
             x = X0[i].copy()
             s.current_point = x
             if has_logd:
-                s.current_target_logd = s.target.logd(x)
+                s.current_target_logd = s.target.logd(x.copy())
             if has_grad:
-                s.current_target_grad = s.target.gradient(x)
+                s.current_target_grad = s.target.gradient(x.copy())
             if has_lik:
-                s.current_likelihood_logd = s._loglikelihood(x)
+                s.current_likelihood_logd = s._loglikelihood(x.copy())
             for _ in range(k):
                 s.step()
             out[i] = np.asarray(s.current_point, float).ravel()
@@ -1154,11 +1425,11 @@ def _run_chains(D, s, ref, X0, k, name, iface):
         for i in range(K):
             x = X0[i].copy()
             if name == "PCN":
-                st = (x, s._loglikelihood(x))
+                st = (x, s._loglikelihood(x.copy()))
             elif name == "MALA":
-                st = (x, s.target.logd(x), s.target.gradient(x))
+                st = (x, s.target.logd(x.copy()), s.target.gradient(x.copy()))
             else:
-                st = (x, s.target.logd(x))
+                st = (x, s.target.logd(x.copy()))
             for _ in range(k):
                 r = s.single_update(np.array(st[0], float), *st[1:])
                 st = r[:-1]
@@ -1176,6 +1447,8 @@ def run_stat(case, ctx):
     D = Driver(env, c2, ctx)
     name, iface = D.name, D.iface
     cfg = _cfg(case)
+    if not env.sanity(ctx, rs, name):
+        return
     ns = ref.natural_scale()
     if name in ("MH", "CWMH"):
         scale = float(rs.uniform(0.8, 2.0)) * ns
@@ -1201,6 +1474,8 @@ def run_stat(case, ctx):
         moved = float(np.mean(np.any(Xk != X0, axis=1)))
         return R.normal_battery(np.asarray(ref.scores(Xk), float).reshape(Kn, -1)), moved
     b1, moved = stage(K)
+    env.rec.clear()
+    env.report_side_effects(ctx, cfg, "independent chains")
     ctx.count("stationarity_tests"); ctx.count("stationarity_chains", K); ctx.count("stationarity_statistics", len(b1))
     ctx.note("moved_fraction", moved)
     ctx.note("min_p", min(v[0] for v in b1.values()))
@@ -1273,7 +1548,14 @@ def selftest(ctx):
     if abs(R.log_q_cov(y, a, B @ B.T) - R.log_q(y, a, B)) > 1e-9:
         ctx.inconclusive("log_q_cov and log_q disagree")
     # exact laws used by the stationarity tests: scores of exact draws pass the battery, a 10% scale error fails it
-    for t in (R.Stat1DGauss(rs), R.Stat1DLogistic(rs), R.Stat1DTrunc(rs), R.Stat2DGauss(rs), R.Stat2DProd(rs), R.StatLinPost(rs, 2)):
+    for w in ("banana", "funnel", "squiggle", "donut", "bivgauss"):
+        t = R.GalleryRef(w)
+        for _ in range(3):
+            x = t.typical(rs)
+            g, gf = t.grad(x), R.fd_grad(t.lp, x, h=1e-6)
+            if not np.allclose(g, gf, rtol=1e-4, atol=1e-5 * (1 + np.max(np.abs(g)))):
+                ctx.inconclusive(f"reference gradient of gallery {w} disagrees with finite differences: {g} vs {gf}")
+    for t in (R.Stat1DGauss(rs), R.Stat1DLogistic(rs), R.Stat1DTrunc(rs), R.Stat2DGauss(rs), R.Stat2DProd(rs), R.StatLinPost(rs, 2), R.StatBanana(rs)):
         X = t.draw(rs, 20000)
         b = R.normal_battery(np.asarray(t.scores(X), float).reshape(20000, -1))
         if min(v[0] for v in b.values()) < 1e-6:
